@@ -60,7 +60,7 @@ def _launch(job, tier, scratch):
     out = os.path.join(jd, "out.json")
     tickfile = os.path.join(jd, "ticks")
     env = dict(os.environ)
-    env.update(TMPDIR=jd, VK_TICKFILE=tickfile, VERIF_TIER=tier, PYTHONHASHSEED="0",
+    env.update(TMPDIR=jd, VK_TICKFILE=tickfile, VERIF_TIER=tier, PYTHONHASHSEED=str(int(os.environ.get("VERIF_SEED", "0") or 0) % 4294967296),
                PYTHONPATH=VERIF, PYTHONDONTWRITEBYTECODE="1")
     worker = "ch_worker.py" if job["kind"] == "ch" else "py_worker.py"
     cmd = [PY, os.path.join(VERIF, "vk", worker), job["module"], job["function"],
@@ -110,7 +110,7 @@ def replay_call(module, callstr, scratch):
     in the loop).  Returns (reproduced: bool|None, observed: str)."""
     env = dict(os.environ)
     rd = tempfile.mkdtemp(prefix="replay-", dir=scratch)
-    env.update(TMPDIR=rd, PYTHONPATH=VERIF, PYTHONHASHSEED="0", PYTHONDONTWRITEBYTECODE="1")
+    env.update(TMPDIR=rd, PYTHONPATH=VERIF, PYTHONHASHSEED=str(int(os.environ.get("VERIF_SEED", "0") or 0) % 4294967296), PYTHONDONTWRITEBYTECODE="1")
     env.pop("VK_TICKFILE", None)
     try:
         p = subprocess.run([PLAIN_PY, os.path.join(VERIF, "vk", "replay.py"), module, callstr],
@@ -192,6 +192,7 @@ def judge(job, pid, scratch, known):
         recs.append(dict(base, verdict="inconclusive", detail=why))
         return recs
     base["cpu_s"] = round(res.get("cpu_s", 0), 2)
+    base["repo_src"] = res.get("repo_src")
     base["examples_run"] = res.get("examples", [])
     base["queries"] = res.get("queries", 0)
     base["solver_s"] = round(res.get("solver_s", 0.0), 3)
